@@ -76,8 +76,26 @@ Definition id_logpdf (inners : list (R -> res)) (xs : list R) : res :=
   if negb (length xs =? length inners)%nat then ErrDim else
   fold_left (fun acc p => prod_step acc (fst p (snd p))) (combine inners xs) (Val (Fin 0)).
 
+(* VectorId.LogPdf (vectorDistribution/vectorId.go): a product over BLOCKS; component i has dimension m_i
+   and sees x.ConstSlice(j, j+m_i), where j is the running sum of the dimensions of the components before
+   it (`j += m`); an error of a component is returned at once *)
+Fixpoint vid_loop (comps : list (nat * (list R -> res))) (j : nat) (x : list R) (r : ER) : res :=
+  match comps with
+  | [] => Val r
+  | (m, lp) :: rest =>
+      match lp (firstn m (skipn j x)) with
+      | Val t => vid_loop rest (j + m) x (eadd r t)
+      | e => e
+      end
+  end.
+(* NewVectorId: n = sum of the Dim() of the components *)
+Definition vid_dim (comps : list (nat * (list R -> res))) : nat := fold_left (fun a c => (a + fst c)%nat) comps 0%nat.
+Definition vid_logpdf (comps : list (nat * (list R -> res))) (x : list R) : res :=
+  if negb (length x =? vid_dim comps)%nat then ErrDim else vid_loop comps 0 x (Fin 0).
+
 (* ------------------------------------------------- dispatcher for the correspondence *)
-Inductive vfam := VT | VNormal | VIid (f : fam) | VId (fs : list fam).
+(* VVId: vectorDistribution.VectorId over ScalarIid components (family, dimension) *)
+Inductive vfam := VT | VNormal | VIid (f : fam) | VId (fs : list fam) | VVId (cs : list (fam * nat)).
 (* nu: degrees of freedom (VT); mu / sinv / sdet: location, logged inverse and determinant (VT, VNormal);
    pss / zss: parameter vectors of the scalar components (VIid: the head; VId: one per component);
    n: the dimension given to NewScalarIid *)
@@ -89,4 +107,8 @@ Definition veval (lgam lerfc : R -> R) (gamP : R -> R -> R) (v : vfam) (nu : R) 
   | VIid f => iid_logpdf (eval lgam lerfc gamP f LogPdf (nth 0 pss []) (nth 0 zss [])) n x
   | VId fs => id_logpdf (map (fun k => eval lgam lerfc gamP (nth k fs FDelta) LogPdf (nth k pss []) (nth k zss []))
                              (seq 0 (length fs))) x
+  | VVId cs => vid_logpdf (map (fun k => let c := nth k cs (FDelta, 0%nat) in
+                                  (snd c, iid_logpdf (eval lgam lerfc gamP (fst c) LogPdf (nth k pss []) (nth k zss []))
+                                                     (Z.of_nat (snd c))))
+                               (seq 0 (length cs))) x
   end.
